@@ -77,4 +77,42 @@ CLAIMS['C20'] = {
             'Rewind, NextPacket counts, mixed and repeated rewinds on the real Demuxer; Mon_C20 requires Rewind = (0, nil) and the post-rewind '
             'deliveries to equal a fresh Demuxer\'s.',
     'note': TRUST, 'technique': 'TLA+-generated scenarios + exhaustive call-count enumeration judged by trace validation (Mon_C20)', 'ref': 'DESIGN.md 4 C20'}
+CODEC_NOTE = TRUST + ' Numeric ranges are covered structurally (0, max, every single-bit value, flag subsets, boundary lengths, seeded random), not exhaustively (DESIGN.md 6).'
+CLAIMS['C09'] = {
+    'text': 'Every single-bit flip (exhaustive per unit), byte substitutions, bursts <= 32 bits, truncations and extensions of seeded units of all six '
+            'table kinds are demuxed by the real Demuxer; Mon_C09 recomputes the outcome with an independent TLA+ reference decoder (pointer_field, '
+            'table_id, section_length, bitwise CRC-32/MPEG-2) and requires: never an altered table, all tables when the reference accepts the whole '
+            'unit. Every PAT/PMT payload the real Muxer emits (descriptors of all kinds, struct Length correct/0/wrong) must hold exactly one '
+            'section the reference decoder accepts.',
+    'note': CODEC_NOTE, 'technique': 'TLA+ reference decoder evaluated by TLC over fault-enumerated real-code traces (Mon_C09)', 'ref': 'DESIGN.md 4 C09'}
+CLAIMS['C10'] = {
+    'text': 'CRC32.tla defines CRC-32/MPEG-2 bit by bit (check value, pieces = one pass, residue 0 model-checked); Mon_C10 recomputes every value '
+            'observed from the real functions: all 256 table entries, single-step pairs for a GF(2)-basis of states x all bytes plus random states, all '
+            'messages of length 0..2 (thorough), random messages with every split point.',
+    'note': CODEC_NOTE, 'technique': 'TLA+ definition evaluated by TLC against values recorded from the real functions (Mon_C10)', 'ref': 'DESIGN.md 4 C10'}
+CLAIMS['C11'] = {
+    'text': 'TSEncode.tla is the reference bit layout of header + adaptation field (+ extension); for structured and random packet values the real '
+            'WritePacket bytes must equal TSEncode!Encode(value), the real NextPacket of those bytes must equal the value, and re-emission must be '
+            'byte-identical (Mon_C11); the layout itself is cross-checked against an independent structural decoder (TSRoundTrip).',
+    'note': CODEC_NOTE, 'technique': 'TLA+ reference encoding evaluated by TLC over real-code parse/write traces (Mon_C11)', 'ref': 'DESIGN.md 4 C11'}
+CLAIMS['C12'] = {
+    'text': 'PESEncode.tla is the reference layout of PES headers (PTS/DTS/ESCR/ES rate/trick mode/copy info/CRC/extension fields, stuffing, length '
+            'rule) and the exact Duration arithmetic; Mon_C12 requires writer bytes = Encode(value), parser on reference bytes (writer-confirmed or '
+            'twin-built and TLC-re-derived) = value, payload boundaries per PES_packet_length, trick-mode decode for all 256 bytes, Duration() exact.',
+    'note': CODEC_NOTE, 'technique': 'TLA+ reference encoding evaluated by TLC over real-code parse/write traces (Mon_C12)', 'ref': 'DESIGN.md 4 C12'}
+CLAIMS['C13'] = {
+    'text': 'PSI.tla encodes PAT/PMT/SDT/NIT/EIT/TOT sections (header, syntax header, loops, descriptor loops, CRC) and is anchored by the ISO sample '
+            'PAT/PMT of the repository; Mon_C13 re-derives every twin-built unit, requires parsePSIData and the Demuxer to return the value field '
+            'for field (incl. section_length and CRC fields), writePSIData and the Muxer\'s PAT/PMT packets to equal the reference bytes.',
+    'note': CODEC_NOTE, 'technique': 'TLA+ reference encoding evaluated by TLC over real-code parse/write traces (Mon_C13)', 'ref': 'DESIGN.md 4 C13'}
+CLAIMS['C14'] = {
+    'text': 'Descriptors.tla holds 25 descriptor layouts + loop framing, anchored by hand-encoded known vectors; Mon_C14 requires the real '
+            'writeDescriptorsWithLength bytes = LoopWithLength(values) and the length calculator = bytes emitted whatever the struct Length holds, '
+            'the real parseDescriptors on those bytes = values, and after a malformed middle descriptor an error or intact sentinels.',
+    'note': CODEC_NOTE, 'technique': 'TLA+ reference encoding evaluated by TLC over real-code parse/write traces (Mon_C14)', 'ref': 'DESIGN.md 4 C14'}
+CLAIMS['C15'] = {
+    'text': 'DVBTime.tla writes the Annex C formulas in integer arithmetic and DVBWalk.tla checks them against a calendar walk for all 50 457 days '
+            '(TLC); Mon_C15 compares the real decoder on every day x 3 times, (every 5th / every) second of the day on 7 days, the real encoder on '
+            'days and seconds, all hh:mm and (every 13th / all) hh:mm:ss BCD durations and raw patterns with those definitions.',
+    'note': CODEC_NOTE, 'technique': 'TLA+ calendar model checked by TLC + definitions evaluated over real-code traces (Mon_C15)', 'ref': 'DESIGN.md 4 C15'}
 NOT_CLAIMED = {}
